@@ -758,6 +758,9 @@ func famHash(dir string, seed int64, tier string) {
 		}
 	}
 	apiTreeEditsStayPrivate(repT, "C12")
+	apiDerefResolverBoth(repR)
+	apiHashTargetTiming(repH)
+	apiHashTargetTiming(repT)
 	apiFillHashAfterEdit(repH)
 	apiFindRefs(repT)
 	apiFindRefs(repR)
